@@ -257,6 +257,8 @@ class Trimesh(Geometry3D):
         if self.is_empty:
             return self
 
+        # normals can be kept in cache if faces aren't re-wound
+        keep = {"face_normals", "vertex_normals"}
         # avoid clearing the cache during operations
         with self._cache:
             # if we're cleaning remove duplicate
@@ -265,7 +267,17 @@ class Trimesh(Geometry3D):
                 # get a mask with only unique and non-degenerate faces
                 mask = self.unique_faces() & self.nondegenerate_faces()
                 self.update_faces(mask)
+                if not mask.all():
+                    # the cache is locked so values for the removed faces
+                    # would be used below: only the face normals that
+                    # `update_faces` has just masked are still correct
+                    keep = {"face_normals"}
+                    self._cache.clear(exclude=keep)
+                winding = self.faces.__hash__()
                 self.fix_normals()
+                if self.faces.__hash__() != winding:
+                    # faces were reversed so cached normals are wrong
+                    keep = set()
 
             # since none of our process operations moved vertices or faces
             # we can keep face and vertex normals in the cache without recomputing
@@ -273,7 +285,7 @@ class Trimesh(Geometry3D):
             # being returned so there is no danger of inconsistent dimensions
             self.remove_infinite_values()
             self.merge_vertices(merge_tex=merge_tex, merge_norm=merge_norm)
-            self._cache.clear(exclude={"face_normals", "vertex_normals"})
+            self._cache.clear(exclude=keep)
 
         self.metadata["processed"] = True
         return self
